@@ -442,8 +442,10 @@ inline int scenario_main(int argc, char** argv, const ScenarioDef& def) {
       xrt::set_context(def.name, cfg.c_str(), args.seed, i);
       xrt::clear_violation();
       ExecOut out;
-      if (args.verbose && args.only >= 0 && (uint64_t)args.only == i)
+      if (args.verbose && args.only >= 0 && (uint64_t)args.only == i) {
+        fprintf(stderr, "TRACE ==== %s/%s exec %" PRIu64 "\n", def.name, cfg.c_str(), i);
         xrt::set_trace(true);
+      }
       def.run(cfg, ctx, out);
       xrt::set_trace(false);
       if (xrt::has_violation() && !out.violation) {
